@@ -230,8 +230,15 @@ def check_buffer(ctx: RuleCtx, model: NodeModel, primitive: str, wrapper: str) -
         for c in walk_no_nested(fn):
             if isinstance(c, ast.Call) and isinstance(c.func, ast.Attribute) and _is_buf(c.func.value) \
                     and c.func.attr in ('append', 'extend', 'insert', 'pop', 'remove', 'clear', 'sort', 'reverse'):
-                ctx.require(name == primitive and c.func.attr == 'append' and norm(c.args[0]) == 'self.current', f'{qn}: `{short(c)}` appends the token just read',
-                            mod, qn, c, f'`{short(c)}` changes the pending-whitespace buffer outside the stream advance Parser.{primitive}', c)
+                if name == primitive:
+                    # inside the stream advance: the appended value must be the token just read (self.current or a local alias of it)
+                    al = {norm(st.value) for st in walk_no_nested(fn) if isinstance(st, ast.Assign) and any(attr_chain(t) == 'self.current' for t in st.targets)}
+                    al |= {norm(st.targets[0]) for st in walk_no_nested(fn) if isinstance(st, ast.Assign) and norm(st.value) == 'self.current'}
+                    if not (c.func.attr == 'append' and c.args and (norm(c.args[0]) == 'self.current' or norm(c.args[0]) in al)):
+                        raise Undecided(f'{qn}: `{short(c)}` inside the stream advance does not append the token just read in a recognised way')
+                    ctx.ok(f'{qn}: `{short(c)}` appends the token just read')
+                else:
+                    ctx.violation(mod, qn, c, f'`{short(c)}` changes the pending-whitespace buffer outside the stream advance Parser.{primitive}', c)
             if isinstance(c, ast.Delete):
                 raise Undecided(f'{qn}: del statement')
         writes = [st for st in walk_no_nested(fn) if isinstance(st, (ast.Assign, ast.AnnAssign, ast.AugAssign))
